@@ -20,6 +20,7 @@ CODECS = "TestBoundedCodecs"
 ROUTING = "TestBoundedRouting"
 SEARCH = [  # obligation-name prefix -> bounded search
     ("cache.NewDispatcher/", "TestBoundedNewDispatcher"), ("cache.newHTTPLRUCache/", "TestBoundedNewDispatcher"),
+    ("cache.convertConfigs/", "TestBoundedConfiguredPeriod"), ("cache.dispatcher.GetHitForPass/", "TestBoundedConfiguredPeriod"),
     ("cache.httpCache.HitForPass/atunlock:ttl", "TestBoundedHitForPassTTL"), ("cache.httpCache.HitForPass/lockinv:expiry", "TestBoundedHitForPassTTL"),
     ("cache.httpCache.Bytes/", FORMAT), ("cache.httpCache.FromBytes/", FORMAT), ("cache.HTTPResponse.Bytes/", FORMAT),
     ("cache.HTTPResponse.FromBytes/", FORMAT), ("cache.readUint32ToInt/", FORMAT), ("cache.readUint64ToInt64/", FORMAT),
